@@ -88,7 +88,45 @@ func genParams(r *core.Run, maxPool int) params {
 	}
 	p.heads = s.Range("heads", 2, 4)
 	size := s.Range("poolsize", 3, maxPool)
-	switch s.Weighted("poolmode", []int{3, 4, 3}) {
+	switch s.Weighted("poolmode", []int{3, 4, 3, 3}) {
+	case 3: // boundary: ids crafted so that their hash sits exactly on (or next to) range bounds of this run's division
+		var targets []uint64
+		lvl := []tuple{{0, ^uint64(0)}}
+		for depth := 0; depth < 3 && len(targets) < 4*size; depth++ {
+			var next []tuple
+			for _, t := range lvl {
+				for _, sub := range subdivide(t.from, t.to, p.df) {
+					targets = append(targets, sub.from, sub.to, sub.from+1, sub.to-1)
+					next = append(next, sub)
+				}
+			}
+			// follow a few sub-ranges only (the tree is wide)
+			lvl = lvl[:0]
+			for i := 0; i < 3 && len(next) > 0; i++ {
+				lvl = append(lvl, next[s.Choose("bndpath", len(next))])
+			}
+		}
+		seen := map[uint64]bool{}
+		for len(p.pool) < size && len(targets) > 0 {
+			i := s.Choose("bndpick", len(targets))
+			t := targets[i]
+			targets = append(targets[:i], targets[i+1:]...)
+			if seen[t] {
+				continue
+			}
+			seen[t] = true
+			var pre [8]byte
+			copy(pre[:], fmt.Sprintf("b%07d", len(p.pool)))
+			if id, ok := craftId(pre, t); ok {
+				p.pool = append(p.pool, id)
+			}
+		}
+		if n := size - len(p.pool); n > 0 {
+			off := s.Choose("pooloff", len(uniformIds)-n)
+			p.pool = append(p.pool, uniformIds[off:off+n]...)
+		}
+		r.SetCfg("pool", "boundary")
+		r.Probe("boundary-pool")
 	case 0: // uniform
 		off := s.Choose("pooloff", len(uniformIds)-size)
 		p.pool = append(p.pool, uniformIds[off:off+size]...)
